@@ -1,7 +1,7 @@
 (* Property C08 - merge: every item exactly once, per-input order kept, ends iff all inputs ended. *)
 From Coq Require Import List Arith Bool.
 Import ListNotations.
-Require Import ScanFull InstsFull ObligMZ C08Merge C11Groups C03Merge C08Eager Monitors.
+Require Import ScanFull InstsFull ObligMZ C08Merge C11Groups C03Merge C08Eager Monitors Counting LiveMerge.
 
 (* For every number of inputs, scripts, history and both strategies there is a split of each input's script into a consumed
    prefix [pre i] and the rest such that (i) the yields with provenance i are exactly the items of [pre i], in order;
@@ -48,3 +48,29 @@ Theorem C08_yields_are_the_items_answered selective scs ops : let w := merge_wor
   dropped _ w = false -> yvals (strip (tr _ w)) = avals (strip (tr _ w)).
 Proof. exact (merge_yields_are_items selective scs ops). Qed.
 Print Assumptions C08_yields_are_the_items_answered.
+
+(* ---- "yields every item produced by every input" and "returns None when all inputs have returned None": both do happen.  After ANY history of a
+        merge of n >= 1 inputs whose scripts never panic and reach their End, while it has not been dropped and has not ended: the wake-driven
+        executor of C01 (a round = invoke every input's most recent waker, poll with the same task) has been handed None within (k + 1) * B rounds,
+        k the number of items still scripted, B any bound on the remaining script lengths; the world reached is a history of the model, so
+        C08_merge_exactly_once holds of it: with None returned every input has ended, and every item of every input has been yielded, exactly once
+        and in its input's order.  (Proofs/LiveMerge.v: merge_ends - items still scripted + outputs returned is invariant along every history,
+        C01's next-result theorem returns an item or None within B rounds.) *)
+Theorem C08_every_item_comes_out_under_wake_driven_executor scs ops B :
+  (forall i, i < length scs -> ended (nth i scs []) = true) -> (forall m st, In st (nth m scs []) -> answer st <> APanic) -> 0 < length scs ->
+  let rnd := rounds mst m_n m_awaited (fun _ i => i) m_handle true true m_order m_pre_exit (fun _ => false) m_finish (fun s => s)
+               (fun s => drop_all_children (m_n s)) m_final (@no_mut mst) in
+  let w := merge_world true scs ops in
+  finished _ w = false -> dropped _ w = false -> (forall j, length (nth j (scripts _ w) []) <= B) -> 1 <= B ->
+  exists R, R <= (items_total (scripts _ w) + 1) * B /\ let w' := rnd R w in
+    dropped _ w' = false /\ In (EEndR ONone) (tr _ w') /\ exists ops', w' = merge_world true scs ops'.
+Proof. intros He Hp Hn rnd w Hf Hd HB HB1. exact (merge_ends scs He Hp Hn B HB1 (items_total (scripts _ w)) ops Hf Hd (le_n _) HB). Qed.
+Print Assumptions C08_every_item_comes_out_under_wake_driven_executor.
+Example C08_ends_witness :
+  let P := {| fires := []; answer := APend |} in let I v := {| fires := []; answer := AItem v |} in let E := {| fires := []; answer := AEnd |} in
+  let scs := [[P; I 1; E]; [I 5; P; I 6; E]] in
+  let rnd := rounds mst m_n m_awaited (fun _ i => i) m_handle true true m_order m_pre_exit (fun _ => false) m_finish (fun s => s)
+               (fun s => drop_all_children (m_n s)) m_final (@no_mut mst) in
+  let w := merge_world true scs [] in
+  items_total (scripts _ w) = 3 /\ map (fun k => results (strip (tr _ (rnd k w)))) [3; 4] = [[OSome (Some 1) [5]; OSome (Some 0) [1]; OSome (Some 1) [6]]; [OSome (Some 1) [5]; OSome (Some 0) [1]; OSome (Some 1) [6]; ONone]].
+Proof. vm_compute. split; reflexivity. Qed.
